@@ -41,6 +41,7 @@ VInt(i)     == [t |-> "int", v |-> i]
 VDec(h)     == [t |-> "dec", h |-> h]
 VStr(s)     == [t |-> "str", v |-> s]
 VRaw(b)     == [t |-> "raw", b |-> b]
+VCpx(ha, hb) == [t |-> "cpx", a |-> VDec(ha), b |-> VDec(hb)]
 
 IsNull(v)   == v.t = "null"
 
@@ -51,8 +52,11 @@ TypeOf(v) ==
     [] v.t = "dec"  -> TDec
     [] v.t = "str"  -> TStr
     [] v.t = "raw"  -> TRaw
+    [] v.t = "cpx"  -> T("cpx")
     [] v.t = "tup"  -> v.ty
     [] v.t = "tab"  -> v.ty
+    [] v.t = "bigint" -> TInt
+    [] v.t = "bigdec" -> TDec
     [] OTHER        -> TUndef
 
 VTup(items) == [t |-> "tup", ty |-> TRow([i \in DOMAIN items |-> TypeOf(items[i]).m]), v |-> items]
@@ -103,7 +107,9 @@ Matches(w, e)   == \/ w = "OTHERS" /\ Catchable(e)
 NoFrame == [x \in {} |-> VNil]
 \* inloop: number of loops of the current frame that are running (break/continue outside a loop do nothing)
 State0  == [vars |-> NoFrame, funcs |-> <<>>, out |-> "", depth |-> 0, inloop |-> 0,
-            sig |-> "", err |-> NoErr, rv |-> VNil, hasrv |-> FALSE, cerr |-> NoErr]
+            sig |-> "", err |-> NoErr, rv |-> VNil, hasrv |-> FALSE, cerr |-> NoErr,
+            locked |-> {},      \* variables being traversed by forall: read-only until the loop is left
+            unk |-> FALSE]      \* unk: the trace monitor lost track of this context (after an unpinned step)
 
 SetVar(S, n, v) == [S EXCEPT !.vars = [x \in (DOMAIN S.vars) \cup {n} |-> IF x = n THEN v ELSE S.vars[x]]]
 Raise(S, e)     == [S EXCEPT !.sig = "err", !.err = e]
@@ -199,6 +205,14 @@ Coerce(v, et) ==
   ELSE IF v.t = "null" /\ v.ty.l = 0 /\ et.l = 0 /\ v.ty.m \in {"int", "dec"} /\ et.m \in {"int", "dec"} THEN VNull(et)
   ELSE v
 Fits(v, et) == TypeOf(Coerce(v, et)) = et
+\* element arguments whose treatment the manual does not pin down (accepted with a conversion or rejected):
+\* a fractional decimal into an integer slot, an untyped null into a slot of tuples
+Unpinned(v, et) == \/ v.t = "dec" /\ et = TInt /\ v.h % 2 # 0
+                   \/ v.t = "null" /\ v.ty.m \in {"undef", "any", "row"} /\ v.ty.l = 0 /\ et.m = "row" /\ et.l = 0
+\* concat additionally: a number of the other numeric kind, a null table
+UnpinnedConcat(v, et) == \/ Unpinned(v, et)
+                         \/ et.l = 0 /\ et.m \in {"int", "dec"} /\ TypeOf(v).l = 0 /\ TypeOf(v).m \in {"int", "dec"} /\ TypeOf(v) # et
+                         \/ v.t = "null" /\ v.ty.l > 0
 
 SeqInsert(s, i, x) == SubSeq(s, 1, i) \o <<x>> \o SubSeq(s, i + 1, Len(s))      \* insert before 0-based position i
 SeqDelete(s, i)    == SubSeq(s, 1, i) \o SubSeq(s, i + 2, Len(s))              \* delete 0-based position i
@@ -211,6 +225,16 @@ Rep(n, x)          == [i \in 1..n |-> x]
 \* differences of two such constants).  Rendered as the real 64-bit literal.
 BigM == 500000000
 BigVal(e) == IF e.base = "MAX" THEN BigM + e.off ELSE (-BigM - 1) + e.off
+
+\* characters <-> byte codes for the small alphabet generated programs use in strings
+Alphabet == <<"a", "b", "c", "d", "x", "y", "z", "q", "n", "A", "B", "C", "X", "Y", "Z", "_", " ", "0", "1", "9">>
+AlphaCode == <<97, 98, 99, 100, 120, 121, 122, 113, 110, 65, 66, 67, 88, 89, 90, 95, 32, 48, 49, 57>>
+CodeOf(c) == LET idx == {j \in DOMAIN Alphabet : Alphabet[j] = c} IN IF idx = {} THEN -1 ELSE AlphaCode[CHOOSE j \in idx : TRUE]
+ChrOf(n)  == LET idx == {j \in DOMAIN AlphaCode : AlphaCode[j] = n} IN IF idx = {} THEN "?" ELSE Alphabet[CHOOSE j \in idx : TRUE]
+KnownCode(n) == \E j \in DOMAIN AlphaCode : AlphaCode[j] = n
+StrIns(str, i, x) == SubSeq(str, 1, i) \o x \o SubSeq(str, i + 1, Len(str))       \* before 0-based position i
+StrDel(str, i)    == SubSeq(str, 1, i) \o SubSeq(str, i + 2, Len(str))
+StrPut(str, i, c) == SubSeq(str, 1, i) \o c \o SubSeq(str, i + 2, Len(str))
 
 (* ------------------------------ evaluation ---------------------------- *)
 RECURSIVE Eval(_, _), EvalArgs(_, _, _), ExecList(_, _), Exec(_, _), WhileLoop(_, _, _),
@@ -225,6 +249,9 @@ FindFunc(S, n, ar) ==
 
 \* A "place" is a variable or an element of a place reached by .at(i); in-place methods mutate places.
 IsPlace(e) == e.k = "var" \/ (e.k = "mem" /\ e.m = "at" /\ e.r.k \in {"var", "mem"})
+
+RECURSIVE RootVar(_)
+RootVar(e) == IF e.k = "var" THEN e.n ELSE RootVar(e.r)
 
 \* evaluate argument list left to right
 EvalArgs(es, S, acc) ==
@@ -249,12 +276,15 @@ Builtin(f, S, vs) ==
     [] f = "str"  -> IF vs = <<>> THEN R(S, VNull(TStr))
                      ELSE IF IsNull(vs[1]) THEN R(S, VNull(TStr))
                      ELSE IF vs[1].t \in {"int", "dec", "str"} THEN R(S, VStr(PrintText(vs[1]))) ELSE RE(S, EOther("wide"))
-    [] f = "raw"  -> IF vs = <<>> THEN R(S, VNull(TRaw)) ELSE RE(S, EOther("wide"))
+    [] f = "raw"  -> IF vs = <<>> THEN R(S, VNull(TRaw))
+                     ELSE IF Len(vs) = 2 /\ vs[1].t = "int" /\ vs[1].v >= 0 /\ vs[2].t = "int" /\ vs[2].v >= 0 /\ vs[2].v <= 255
+                          THEN R(S, VRaw(Rep(vs[1].v, vs[2].v)))
+                     ELSE RE(S, EOther("wide"))
     [] f = "tup"  -> IF vs = <<>> THEN R(S, VNull(TRow(<<>>)))
                      ELSE IF \E i \in DOMAIN vs : TypeOf(vs[i]).m \in {"undef", "row"} \/ TypeOf(vs[i]).l > 0
                           THEN RE(S, EOther("tuple item"))
                           ELSE R(S, VTup(vs))
-    [] f = "tab"  -> IF vs = <<>> THEN R(S, VNull(T("undef")))
+    [] f = "tab"  -> IF vs = <<>> THEN R(S, VNull(TTab(TUndef)))
                      ELSE IF IsNull(vs[1]) \/ vs[1].t # "int" THEN RE(S, EOther("wide"))
                      ELSE IF TypeOf(vs[2]).m = "undef" \/ (IsNull(vs[2]) /\ (TypeOf(vs[2]).m = "row" \/ TypeOf(vs[2]).l > 0))
                           THEN RE(S, EOther("table elem"))
@@ -294,13 +324,74 @@ EvalMember(e, S) ==
   IF Failed(ra.S) THEN RE(ra.S, ra.S.err)
   ELSE
     LET S1 == ra.S   x == rr.v   vs == ra.vs
-        n  == IF x.t \in {"tab", "tup"} THEN Len(x.v) ELSE IF x.t = "str" THEN Len(x.v) ELSE 0
+        n  == IF x.t \in {"tab", "tup"} THEN Len(x.v) ELSE IF x.t = "str" THEN Len(x.v) ELSE IF x.t = "raw" THEN Len(x.b) ELSE 0
+        \* position argument: an integer inside lo..hi
+        PosIn(v, lo, hi) == v.t = "int" /\ v.v >= lo /\ v.v <= hi
+        IsByte(v) == v.t = "int" /\ v.v >= 0 /\ v.v <= 255
         \* result of an in-place method: new receiver value nv, written back when the receiver is a place
-        Done(nv) == IF IsPlace(e.r) THEN R(StorePath(e.r, S1, nv), nv) ELSE R(S1, nv)
+        Done(nv) == IF IsPlace(e.r)
+                    THEN IF RootVar(e.r) \in S1.locked THEN RE(S1, EOther("const"))      \* table under forall
+                         ELSE R(StorePath(e.r, S1, nv), nv)
+                    ELSE R(S1, nv)
     IN
     CASE e.m = "count" ->
            IF IsNull(x) THEN R(S1, VNull(TInt))
-           ELSE IF x.t \in {"tab", "tup", "str"} THEN R(S1, VInt(n)) ELSE RE(S1, EOther("wide"))
+           ELSE IF x.t \in {"tab", "tup", "str", "raw"} THEN R(S1, VInt(n)) ELSE RE(S1, EOther("wide"))
+      [] x.t \in {"str", "raw"} /\ e.m \in {"at", "put", "insert", "delete"} ->
+           \* strings and bytes: positions 0-based, elements are byte codes
+           IF e.m \in {"put", "insert"} /\ Len(vs) = 2 /\ ~IsNull(vs[2]) /\ {x.t, vs[2].t} # {"raw", "str"}
+              /\ vs[2].t \notin (IF e.m = "put" THEN {"int"} ELSE {"int", x.t}) THEN RE(S1, EOther("type"))
+           ELSE IF e.m = "put" /\ Len(vs) = 2 /\ vs[2].t \in {"str", "raw"} THEN RE(S1, EOther("type"))
+           ELSE IF e.m = "insert" /\ Len(vs) = 2 /\ {x.t, vs[2].t} = {"raw", "str"} THEN RE(S1, EOther("wide"))
+           ELSE IF TypeOf(vs[1]) # TInt THEN RE(S1, EOther("type"))
+           ELSE IF IsNull(vs[1]) THEN RE(S1, EOther("index"))
+           ELSE IF e.m = "at" THEN
+                IF ~PosIn(vs[1], 0, n - 1) THEN RE(S1, EOther("index"))
+                ELSE IF x.t = "raw" THEN R(S1, VInt(x.b[vs[1].v + 1]))
+                ELSE LET c == CodeOf(SubSeq(x.v, vs[1].v + 1, vs[1].v + 1)) IN IF c < 0 THEN RE(S1, EOther("wide")) ELSE R(S1, VInt(c))
+           ELSE IF e.m = "delete" THEN
+                IF Len(vs) # 1 THEN RE(S1, EOther("wide"))
+                ELSE IF ~PosIn(vs[1], 0, n - 1) THEN RE(S1, EOther("index"))
+                ELSE Done(IF x.t = "raw" THEN VRaw(SeqDelete(x.b, vs[1].v)) ELSE VStr(StrDel(x.v, vs[1].v)))
+           ELSE IF e.m = "put" THEN
+                IF IsNull(vs[2]) THEN RE(S1, EOther("wide"))
+                ELSE IF vs[2].t # "int" THEN RE(S1, EOther("type"))
+                ELSE IF ~PosIn(vs[1], 0, n - 1) THEN RE(S1, EOther("index"))
+                ELSE IF ~IsByte(vs[2]) THEN RE(S1, ERange)
+                ELSE IF x.t = "raw" THEN Done(VRaw(SeqPut(x.b, vs[1].v, vs[2].v)))
+                ELSE IF ~KnownCode(vs[2].v) THEN RE(S1, EOther("wide")) ELSE Done(VStr(StrPut(x.v, vs[1].v, ChrOf(vs[2].v))))
+           ELSE \* insert
+                IF IsNull(vs[2]) THEN RE(S1, EOther("wide"))
+                ELSE IF {x.t, vs[2].t} = {"raw", "str"} THEN RE(S1, EOther("wide"))
+                ELSE IF vs[2].t \notin {"int", x.t} THEN RE(S1, EOther("type"))
+                ELSE IF ~PosIn(vs[1], 0, n) THEN RE(S1, EOther("index"))
+                ELSE IF vs[2].t = "int" THEN
+                     IF ~IsByte(vs[2]) THEN RE(S1, ERange)
+                     ELSE IF x.t = "raw" THEN Done(VRaw(SeqInsert(x.b, vs[1].v, vs[2].v)))
+                     ELSE IF ~KnownCode(vs[2].v) THEN RE(S1, EOther("wide")) ELSE Done(VStr(StrIns(x.v, vs[1].v, ChrOf(vs[2].v))))
+                ELSE IF x.t = "str" /\ vs[2].t = "str" THEN Done(VStr(StrIns(x.v, vs[1].v, vs[2].v)))
+                ELSE IF x.t = "raw" /\ vs[2].t = "raw" THEN Done(VRaw(SubSeq(x.b, 1, vs[1].v) \o vs[2].b \o SubSeq(x.b, vs[1].v + 1, n)))
+                ELSE IF {x.t, vs[2].t} = {"raw", "str"} THEN RE(S1, EOther("wide"))
+                ELSE RE(S1, EOther("type"))
+      [] x.t \in {"str", "raw"} /\ e.m = "concat" ->
+           IF IsNull(vs[1]) THEN RE(S1, EOther("wide"))
+           ELSE IF vs[1].t = "int" THEN
+                IF ~IsByte(vs[1]) THEN RE(S1, ERange)
+                ELSE IF x.t = "raw" THEN Done(VRaw(Append(x.b, vs[1].v)))
+                ELSE IF ~KnownCode(vs[1].v) THEN RE(S1, EOther("wide")) ELSE Done(VStr(x.v \o ChrOf(vs[1].v)))
+           ELSE IF x.t = "str" /\ vs[1].t = "str" THEN Done(VStr(x.v \o vs[1].v))
+           ELSE IF x.t = "raw" /\ vs[1].t = "raw" THEN Done(VRaw(x.b \o vs[1].b))
+           ELSE IF {x.t, vs[1].t} = {"raw", "str"} THEN RE(S1, EOther("wide"))
+           ELSE RE(S1, EOther("type"))
+      [] x.t = "tab" /\ e.m \in {"at", "put", "insert", "delete"} /\ TypeOf(vs[1]) # TInt ->
+           RE(S1, EOther("type"))                 \* a position is an integer (possibly a null one)
+      [] x.t = "tab" /\ e.m \in {"put", "insert"} /\ Len(vs) = 2
+           /\ ~(e.m = "insert" /\ vs[2].t = "tab" /\ vs[2].ty = x.ty) /\ ~Unpinned(vs[2], ElemType(x.ty))
+           /\ ~(vs[2].t = "null" /\ vs[2].ty.l > 0) /\ ~Fits(vs[2], ElemType(x.ty)) ->
+           RE(S1, EOther("type"))                 \* compile-time checks come before any position check
+      [] x.t \in {"str", "raw"} /\ e.m \in {"put", "insert"} /\ Len(vs) = 2 /\ ~IsNull(vs[2])
+           /\ vs[2].t \notin (IF e.m = "put" THEN {"int"} ELSE {"int", "str", "raw"}) ->
+           RE(S1, EOther("type"))
       [] e.m = "at" ->
            IF IsNull(x) \/ IsNull(vs[1]) THEN RE(S1, EOther("index"))
            ELSE IF x.t = "tab" /\ vs[1].t = "int" THEN
@@ -309,16 +400,20 @@ EvalMember(e, S) ==
       [] e.m = "put" ->
            IF IsNull(x) \/ IsNull(vs[1]) THEN RE(S1, EOther("index"))
            ELSE IF x.t = "tab" /\ vs[1].t = "int" THEN
-                IF vs[1].v < 0 \/ vs[1].v >= n THEN RE(S1, EOther("index"))
-                ELSE IF ~Fits(vs[2], ElemType(x.ty)) THEN RE(S1, EOther("type"))
+                IF Unpinned(vs[2], ElemType(x.ty)) THEN RE(S1, EOther("wide"))
+                ELSE IF ~Fits(vs[2], ElemType(x.ty)) THEN RE(S1, EOther("type"))      \* compile-time checks come first
+                ELSE IF vs[1].v < 0 \/ vs[1].v >= n THEN RE(S1, EOther("index"))
                 ELSE Done([x EXCEPT !.v = SeqPut(@, vs[1].v, Coerce(vs[2], ElemType(x.ty)))])
            ELSE RE(S1, EOther("wide"))
       [] e.m = "insert" ->
            IF IsNull(x) \/ IsNull(vs[1]) THEN RE(S1, EOther("index"))
            ELSE IF x.t = "tab" /\ vs[1].t = "int" THEN
-                IF vs[1].v < 0 \/ vs[1].v > n THEN RE(S1, EOther("index"))
+                IF ~(vs[2].t = "tab" /\ vs[2].ty = x.ty) /\ ~Unpinned(vs[2], ElemType(x.ty)) /\ ~(vs[2].t = "null" /\ vs[2].ty.l > 0)
+                   /\ ~Fits(vs[2], ElemType(x.ty)) THEN RE(S1, EOther("type"))
+                ELSE IF vs[1].v < 0 \/ vs[1].v > n THEN RE(S1, EOther("index"))
                 ELSE IF vs[2].t = "tab" /\ vs[2].ty = x.ty THEN
                      Done([x EXCEPT !.v = SubSeq(@, 1, vs[1].v) \o vs[2].v \o SubSeq(@, vs[1].v + 1, n)])
+                ELSE IF Unpinned(vs[2], ElemType(x.ty)) \/ (vs[2].t = "null" /\ vs[2].ty.l > 0) THEN RE(S1, EOther("wide"))
                 ELSE IF ~Fits(vs[2], ElemType(x.ty)) THEN RE(S1, EOther("type"))
                 ELSE Done([x EXCEPT !.v = SeqInsert(@, vs[1].v, Coerce(vs[2], ElemType(x.ty)))])
            ELSE RE(S1, EOther("wide"))
@@ -332,13 +427,15 @@ EvalMember(e, S) ==
            IF IsNull(x) THEN RE(S1, EOther("wide"))
            ELSE IF x.t = "tab" THEN
                 IF vs[1].t = "tab" /\ vs[1].ty = x.ty THEN Done([x EXCEPT !.v = @ \o vs[1].v])
+                ELSE IF UnpinnedConcat(vs[1], ElemType(x.ty)) THEN RE(S1, EOther("wide"))
                 ELSE IF ~Fits(vs[1], ElemType(x.ty)) THEN RE(S1, EOther("type"))
                 ELSE Done([x EXCEPT !.v = Append(@, Coerce(vs[1], ElemType(x.ty)))])
            ELSE IF x.t = "str" /\ vs[1].t = "str" THEN Done(VStr(x.v \o vs[1].v))
            ELSE RE(S1, EOther("wide"))
       [] e.m = "set" -> \* tuple mutator  x.set@i(v)   e.i = rank
            IF IsNull(x) \/ x.t # "tup" THEN RE(S1, EOther("wide"))
-           ELSE IF e.i < 1 \/ e.i > n THEN RE(S1, EOther("index"))
+           ELSE IF e.i < 1 \/ e.i > n THEN RE(S1, EOther("rank"))
+           ELSE IF Unpinned(vs[1], T(x.ty.d[e.i])) THEN RE(S1, EOther("wide"))
            ELSE IF ~Fits(vs[1], T(x.ty.d[e.i])) THEN RE(S1, EOther("type"))
            ELSE Done([x EXCEPT !.v = [@ EXCEPT ![e.i] = Coerce(vs[1], T(x.ty.d[e.i]))]])
       [] OTHER -> RE(S1, EOther("wide"))
@@ -351,9 +448,9 @@ CallUser(e, S, vs) ==
     LET f  == S.funcs[fi]
         S1 == [S EXCEPT !.vars = [x \in {f.ps[i] : i \in DOMAIN f.ps} |->
                                     vs[CHOOSE i \in DOMAIN f.ps : f.ps[i] = x]],
-                        !.depth = @ + 1, !.rv = VNil, !.hasrv = FALSE, !.cerr = NoErr, !.inloop = 0]
+                        !.depth = @ + 1, !.rv = VNil, !.hasrv = FALSE, !.cerr = NoErr, !.inloop = 0, !.locked = {}]
         S2 == ExecList(f.b, S1)
-        back == [S2 EXCEPT !.vars = S.vars, !.depth = S.depth, !.rv = S.rv, !.hasrv = S.hasrv, !.cerr = S.cerr, !.inloop = S.inloop]
+        back == [S2 EXCEPT !.vars = S.vars, !.depth = S.depth, !.rv = S.rv, !.hasrv = S.hasrv, !.cerr = S.cerr, !.inloop = S.inloop, !.locked = S.locked]
     IN  IF Failed(S2) THEN [S |-> back, v |-> VNil]
         ELSE R([back EXCEPT !.sig = ""], IF S2.sig = "ret" /\ S2.hasrv THEN S2.rv ELSE VNil)
 
@@ -361,6 +458,11 @@ Eval(e, S) ==
   CASE e.k = "lit"  -> R(S, e.v)
     [] e.k = "null" -> R(S, VNil)
     [] e.k = "bigc" -> R(S, VInt(BigVal(e)))
+    [] e.k = "ii" -> R(S, VCpx(0, 2))             \* the imaginary unit
+    [] e.k = "itemraw" -> \* tuple accessor with a rank too wide for TLC: always out of range
+         LET r == Eval(e.a, S) IN
+         IF Failed(r.S) THEN r ELSE IF r.v.t # "tup" THEN RE(r.S, EOther("wide")) ELSE RE(r.S, EOther("rank"))
+    [] e.k = "rawint" -> R(S, VInt(e.v))          \* an integer literal too wide for TLC, standing for "huge"
     [] e.k = "var"  -> IF e.n \in DOMAIN S.vars THEN R(S, S.vars[e.n]) ELSE R(S, VNull(TAny))
     [] e.k = "paren" -> Eval(e.a, S)
     [] e.k = "un" ->
@@ -398,7 +500,7 @@ Eval(e, S) ==
          LET r == Eval(e.a, S) IN
          IF Failed(r.S) THEN r
          ELSE IF r.v.t # "tup" THEN RE(r.S, EOther("wide"))
-         ELSE IF e.i < 1 \/ e.i > Len(r.v.v) THEN RE(r.S, EOther("index"))
+         ELSE IF e.i < 1 \/ e.i > Len(r.v.v) THEN RE(r.S, EOther("rank"))
          ELSE R(r.S, r.v.v[e.i])
     [] OTHER -> RE(S, EOther("wide"))
 
@@ -464,7 +566,8 @@ Handle(hs, e, S) ==
 
 Exec(s, S) ==
   CASE s.k = "nop" -> S
-    [] s.k = "let" -> LET r == Eval(s.e, S) IN IF Failed(r.S) THEN r.S ELSE SetVar(r.S, s.n, r.v)
+    [] s.k = "let" -> IF s.n \in S.locked THEN Raise(S, EOther("const"))
+                      ELSE LET r == Eval(s.e, S) IN IF Failed(r.S) THEN r.S ELSE SetVar(r.S, s.n, r.v)
     [] s.k = "letn" -> SetVar(S, s.n, VNull(s.ty))
     [] s.k = "do"  -> Eval(s.e, S).S
     [] s.k = "print" \/ s.k = "put" ->
@@ -498,7 +601,9 @@ Exec(s, S) ==
          ELSE IF rt.v.t # "tab" THEN Raise(rt.S, EOther("wide"))
          ELSE LET n == Len(rt.v.v)
                   idxs == IF s.dir = "desc" THEN [i \in 1..n |-> n + 1 - i] ELSE [i \in 1..n |-> i]
-                  S2 == [ForallLoop([s EXCEPT !.tv = rt.v], [rt.S EXCEPT !.inloop = @ + 1], idxs, pl, Fuel) EXCEPT !.inloop = S.inloop]
+                  lk == IF pl THEN {RootVar(s.t)} ELSE {}
+                  S2 == [ForallLoop([s EXCEPT !.tv = rt.v], [rt.S EXCEPT !.inloop = @ + 1, !.locked = @ \cup lk], idxs, pl, Fuel)
+                           EXCEPT !.inloop = S.inloop, !.locked = S.locked]
               IN  \* after the loop (however it is left) the iterator variable is empty: a null whose type
                   \* the manual does not pin
                   IF n = 0 THEN S2 ELSE SetVar(S2, s.n, VNull(TAny))
@@ -565,6 +670,9 @@ RArgs(es) == Join([i \in DOMAIN es |-> RE_(es[i])], ", ")
 RE_(e) ==
   CASE e.k = "lit"  -> RLit(e.v)
     [] e.k = "null" -> "null"
+    [] e.k = "ii" -> "ii"
+    [] e.k = "itemraw" -> RE_(e.a) \o "@" \o e.txt
+    [] e.k = "rawint" -> e.txt
     [] e.k = "bigc" -> IF e.base = "MAX" THEN "(9223372036854775807 - " \o ToString(-e.off) \o ")"
                        ELSE "((-9223372036854775807) - 1 + " \o ToString(e.off) \o ")"
     [] e.k = "var"  -> e.n
@@ -617,6 +725,9 @@ Str(s)          == Lit(VStr(s))
 B(b)            == Lit(VBool(b))
 NullC           == [k |-> "null"]
 BigC(base, off) == [k |-> "bigc", base |-> base, off |-> off]
+RawInt(txt, v)  == [k |-> "rawint", txt |-> txt, v |-> v]
+II              == [k |-> "ii"]
+ItemRaw(a, txt) == [k |-> "itemraw", a |-> a, txt |-> txt]
 V(n)            == [k |-> "var", n |-> n]
 Bin(op, a, b)   == [k |-> "bin", op |-> op, a |-> a, b |-> b]
 Un(op, a)       == [k |-> "un", op |-> op, a |-> a]
